@@ -1034,7 +1034,13 @@ fn gen_case(family: &str, r: &mut Rng) -> Case {
             let mut modes = vec![];
             for mi in 0..nm {
                 let np = if mi == 0 { npat.max(1) } else { 1 + r.below(2) };
-                modes.push(ModeSpec { name: format!("M{mi}"), pats: gen_pats(r, false, np, 0), trans: vec![] });
+                let mut pats = gen_pats(r, false, np, 0);
+                // half of the time one pattern of the mode is a token that runs over several lines
+                if r.below(2) == 0 && !pats.is_empty() {
+                    let k = r.below(pats.len());
+                    pats[k].p = r.pick(&["[a-c\n]+", "a\nb", "\n(b\n)+", "[^x]+x", "(b|\n)+c", "[^;]+;", "\n+", "[ab\n]{2,}"]).to_string();
+                }
+                modes.push(ModeSpec { name: format!("M{mi}"), pats, trans: vec![] });
             }
             let n = r.below(15);
             let input: String = (0..n).map(|_| *r.pick(&['a', 'b', 'c', '\n', '\n', 'x', 'é', 'b', '\n'])).collect();
@@ -1043,7 +1049,7 @@ fn gen_case(family: &str, r: &mut Rng) -> Case {
             let mut ops = vec![];
             for _ in 0..nops {
                 ops.push(match r.below(9) {
-                    0 => Op::SetOffset(*r.pick(&b)),
+                    0 | 3 => Op::SetOffset(*r.pick(&b)),
                     1 => Op::Position(*r.pick(&b)),
                     2 => Op::SetMode(r.below(nm)),
                     _ => Op::Next,
